@@ -109,8 +109,12 @@ EffChunk(r, c, served, fn) == IF served THEN c.agg[AggrKind(fn)] ELSE SubSeq(r.s
 SampleLess(a, b) == a[1] < b[1] \/ (a[1] = b[1] /\ a[2] < b[2])
 (* a replica series as the query sees it through the stores S: union of its chunks *)
 EffSamples(r, S, Served(_), fn) ==
-    SetToSortSeq(UNION { RangeOf(EffChunk(r, r.chunks[k], Served(r.chunks[k]), fn))
-                         : k \in { k \in DOMAIN r.chunks : r.chunks[k].st \in S } }, SampleLess)
+    LET ks == SelectSeq([k \in DOMAIN r.chunks |-> k], LAMBDA k : r.chunks[k].st \in S)
+        qs == SelectSeq([i \in DOMAIN ks |-> EffChunk(r, r.chunks[ks[i]], Served(r.chunks[ks[i]]), fn)],
+                        LAMBDA q : q # <<>>)
+    IN IF \A i \in 1..(Len(qs) - 1) : qs[i][Len(qs[i])][1] < qs[i + 1][1][1]
+         THEN FoldLeft(LAMBDA acc, q : acc \o q, <<>>, qs)           \* chunks in time order: plain concatenation
+         ELSE SetToSortSeq(UNION { RangeOf(qs[i]) : i \in DOMAIN qs }, SampleLess)
 (* two chunks of one replica never disagree about a timestamp *)
 ConsistentSamples(ss) == \A i \in 1..(Len(ss) - 1) : ss[i][1] < ss[i + 1][1]
 EffView(reps, S, Served(_), fn) ==
